@@ -30,12 +30,17 @@ type gatedTunnel struct {
 	writeLen []int
 	closed   int32
 	cw       int32
+	afterCW  int32
 }
 
 func (t *gatedTunnel) Read(p []byte) (int, error) { return 0, io.EOF } // nothing comes back from the tunnel
 func (t *gatedTunnel) Write(p []byte) (int, error) {
 	atomic.AddInt32(&t.inflight, 1)
 	defer atomic.AddInt32(&t.inflight, -1)
+	if atomic.LoadInt32(&t.cw) > 0 {
+		atomic.AddInt32(&t.afterCW, 1)
+		return 0, io.ErrClosedPipe // this tunnel honours its half-close
+	}
 	t.mu.Lock()
 	t.nwrites++
 	k := t.nwrites
@@ -180,6 +185,9 @@ func runUDPGateCase(c *caseIn, out *caseOut) {
 	}
 	if o.ReturnedDuringWrite {
 		out.fail("udpgate-return-during-write", "iocopy.UDP returned while a tunnel Write (the timed flush of datagram %d) was still in flight", pre)
+	}
+	if atomic.LoadInt32(&t.afterCW) != 0 {
+		out.fail("udp-write-after-half-close", "udpgate: %d tunnel Writes came after the tunnel had been half-closed", atomic.LoadInt32(&t.afterCW))
 	}
 	if o.Sent != int64(sumLen(want)) {
 		out.fail("udpgate-sent-count", "BytesSent=%d for %d bytes of datagrams", o.Sent, sumLen(want))
